@@ -230,7 +230,12 @@ struct CEmitter {
   static std::string opnd(const Json &o) { if (o.k == Json::Str) return o.s; long long v = (long long) o.i; return v == INT64_MIN ? std::string("(-9223372036854775807LL-1)") : std::to_string(v) + "LL"; }
   void ind() { out.append((size_t) (2 + 2 * depth), ' '); }
   std::string U(const Json &o) { return "(unsigned long long)" + opnd(o); }
-  void ret(const Json &s) { ind(); out += "return (long long)(" + U(s) + " * " + std::to_string(RETMUL) + "ULL + " + std::to_string((unsigned long long) fn->geti("salt")) + "ULL);\n"; }
+  bool macros = false;
+  void ret(const Json &s) {
+    ind();
+    if (macros) out += "return (long long)(DSL_ID(DSL_MIX(" + opnd(s) + ")) + " + std::to_string((unsigned long long) fn->geti("salt")) + "ULL);\n";
+    else out += "return (long long)(" + U(s) + " * " + std::to_string(RETMUL) + "ULL + " + std::to_string((unsigned long long) fn->geti("salt")) + "ULL);\n";
+  }
   void stmts(const Json &b) { for (auto &st : b.a) stmt(st); }
   void call(const std::string &target, const Json &dst, const std::string &callee, const Json &args, const std::map<std::string, FuncInfo> &sigs) {
     auto &fi = sigs.at(callee); ind(); out += opnd(dst) + " = " + target + "(";
@@ -277,7 +282,12 @@ struct CEmitter {
     } else if (k == "ret") ret(st[1]);
   }
   std::string module(const Json &m, const std::map<std::string, FuncInfo> &all) {
-    sigs = &all; std::string r = "extern long long ext(long long, long long);\n";
+    sigs = &all; macros = m.geti("cmacros", 0) != 0;
+    std::string r;
+    if (macros)  // pre-processor traffic: object- and function-like macros, a benign identical redefinition, #ifdef / #if / #else, #undef
+      r += "#define DSL_MIX(x) ((unsigned long long)(x) * " + std::to_string(RETMUL) + "ULL)\n#define DSL_MIX(x) ((unsigned long long)(x) * " + std::to_string(RETMUL) + "ULL)\n"
+           "#define DSL_K 7\n#define DSL_K 7\n#ifdef DSL_K\n#if DSL_K > 3 && defined(DSL_MIX)\n#define DSL_ID(x) (x)\n#else\n#define DSL_ID(x) (0)\n#endif\n#else\n#define DSL_ID(x) (1)\n#endif\n#undef DSL_K\n";
+    r += "extern long long ext(long long, long long);\n";
     std::set<std::string> defined; for (auto &f : m.at("funcs").a) defined.insert(f.gets("name"));
     auto proto = [&](const FuncInfo &fi) { std::string s = "long long " + fi.name + "("; for (int i = 0; i < fi.na; i++) s += S("%slong long a%d", i ? ", " : "", i); for (int i = 0; i < fi.nd; i++) s += S("%sdouble d%d", fi.na + i ? ", " : "", i); if (fi.na + fi.nd == 0) s += "void"; return s + ")"; };
     std::set<std::string> used, ic;
